@@ -127,7 +127,9 @@ func (se *SessionExecutor) doMultiStmts(reqCtx *util.RequestContext, sql string)
 
 	//multi-query
 	for index, piece := range piecesSql {
-		setContextSQLFingerprint(reqCtx, sql)
+		// the blacklist check and the statistics of a piece use the piece's own fingerprint,
+		// not the fingerprint of the whole multi-statement text
+		setContextSQLFingerprint(reqCtx, piece)
 		r, errRet = se.doQuery(reqCtx, piece)
 		if errRet != nil {
 			return nil, errRet
